@@ -218,6 +218,26 @@ theorem headers_set_eq_spec (l : HList) (k v : Str) (hv : hasNL v = false) :
     Hdr.set l k v = (specSet l k v, .ok ()) :=
   set_eq_spec l k v hv
 
+/-- Headers refines its abstract spec — an ordered list of `(key, value)` pairs whose keys compare
+case-insensitively (`HdrSpec`): every public mutator (`add`, `set`, `h[k]=v`, `setlist`,
+`setdefault`, `setlistdefault`, `extend`, `update`, `|=`, `del h[k]`, `remove`, `pop`, `clear`, with
+all argument forms) is a sequence of the three atomic actions append / replace-first-drop-rest /
+drop-all, performed in order up to the first refused value; positional mutators are the list
+operations. One step: same new state, same result / exception. -/
+theorem hdr_step_refines (l : HList) (op : Hdr.Op) : Hdr.step l op = HdrSpec.step l op :=
+  HdrSpec.step_refines l op
+
+/-- ... hence over EVERY operation history the concrete state is the abstract state, and so every
+read (`h[k]`, `get`, `getlist`, `in`, `len`, iteration, `items/keys/values`, index and slice access,
+`str`) — any function `read` of the pair list — agrees with the spec. No bound on the history. -/
+theorem hdr_refines {α : Type} (l : HList) (ops : List Hdr.Op) (read : HList → α) :
+    read (Hdr.run l ops) = read (HdrSpec.run l ops) := by
+  rw [HdrSpec.run_refines]
+
+example : HdrSpec.run [] [.add "a".toList "1".toList, .add "A".toList "2".toList, .set "a".toList "3".toList,
+    .setlist "b".toList ["x".toList, "y\n".toList], .update (some (.mapping [("a".toList, .many [])])) []]
+    = [("b".toList, "x".toList)] := by decide +kernel
+
 /-- `add` appends: the key's values gain `v` at the end, nothing else moves -/
 theorem headers_add (l : HList) (k v : Str) (hv : hasNL v = false) :
     (Hdr.add l k v).1 = l ++ [(k, v)] ∧ getlist (Hdr.add l k v).1 k = getlist l k ++ [v] := by
